@@ -3,6 +3,7 @@ package sim
 import (
 	"fmt"
 	"math/rand"
+	"sort"
 	"strings"
 	"time"
 )
@@ -175,22 +176,51 @@ func trunc(s string, n int) string {
 
 // stepIdx gives quick access to step events.
 type stepIdx struct {
-	byReq map[string][]*Event // step events per request id
-	all   []*Event
+	byReq  map[string][]*Event // step events per request id
+	byTask map[string][]*Event // step events per task
+	all    []*Event
 }
 
 func stepIndex(h *History) *stepIdx {
-	ix := &stepIdx{byReq: map[string][]*Event{}}
+	ix := &stepIdx{byReq: map[string][]*Event{}, byTask: map[string][]*Event{}}
 	for i := range h.Events {
 		e := &h.Events[i]
 		if e.Kind == "step" {
 			ix.all = append(ix.all, e)
+			ix.byTask[e.Task] = append(ix.byTask[e.Task], e)
 			if e.Req != "" {
 				ix.byReq[e.Req] = append(ix.byReq[e.Req], e)
 			}
 		}
 	}
 	return ix
+}
+
+func (ix *stepIdx) reqStepEvent(req, point string) *Event {
+	for _, e := range ix.byReq[req] {
+		if e.Info == point {
+			return e
+		}
+	}
+	return nil
+}
+
+// lockTail returns, for the step event e of a task (a hand-placed yield
+// point), the last of the steps of the same task that directly follow it and
+// were released at an automatic lock yield in the given source file ("" = any
+// file); e itself when there is none (plain build, or automatic yields off).
+// In the build that yields before every lock acquisition, the code between two
+// hand-placed yield points runs in several steps; what the plain build does
+// "in the step released at X" happens there somewhere between X and the step
+// after lockTail(X).
+func (ix *stepIdx) lockTail(e *Event, file string) *Event {
+	steps := ix.byTask[e.Task]
+	i := sort.Search(len(steps), func(k int) bool { return steps[k].Seq >= e.Seq })
+	last := e
+	for k := i + 1; k < len(steps) && strings.HasPrefix(steps[k].Info, "lock@"+file); k++ {
+		last = steps[k]
+	}
+	return last
 }
 
 func (ix *stepIdx) reqStep(req, point string) int {
